@@ -778,10 +778,76 @@ def editing_domain_pass(ctx):
         ctx.count('domain/words')
 
 
+def reused_delete_pass(ctx):
+    """one `Delete` object asked and used more than once: `can_execute` polled (as an editor does to enable its actions)
+    before the model changes further, and the same object executed again after an undo and other commands — every undo
+    brings back the state its own execute started from"""
+    from pyecore import ecore as E
+    from pyecore import commands as C
+    for k in range(30 if ctx.quick() else 400):
+        rng = common.sub_rng(ctx.seed, 'C06', 'reused-delete', k)
+        A = E.EClass('A')
+        A.eStructuralFeatures.extend([E.EAttribute('name', E.EString), E.EReference('toa', A), E.EReference('many', A, upper=-1),
+                                      E.EReference('kids', A, upper=-1, containment=True)])
+        root = A(name='root')
+        objs = [root]
+        for i in range(rng.randint(3, 6)):
+            o = A(name=f'o{i}')
+            rng.choice(objs).kids.append(o)
+            objs.append(o)
+
+        def snap():
+            return [(o.name, o.toa.name if o.toa is not None else None, [v.name for v in o.many], [v.name for v in o.kids],
+                     o.eContainer().name if o.eContainer() is not None else None) for o in objs]
+
+        def link():
+            a, b = rng.choice(objs), rng.choice(objs[1:])
+            if rng.random() < .5:
+                a.toa = b
+            elif all(v is not b for v in a.many):
+                a.many.append(b)
+        for _ in range(rng.randint(1, 4)):
+            link()
+        victim = rng.choice([o for o in objs[1:]])
+        stack = C.CommandStack()
+        d = C.Delete(victim)
+        mode = rng.choice(['polled-then-changed', 'executed-twice'])
+        ctx.evaluations += 1
+        ctx.count('reused-delete/' + mode)
+        ctx.nontriv(('reused-delete', k))
+        try:
+            if mode == 'polled-then-changed':
+                _ = d.can_execute
+                for _ in range(rng.randint(1, 3)):
+                    link()
+                if rng.random() < .5 and victim.eContainer() is not None:
+                    victim.kids.append(A(name='late'))
+                    objs.append(victim.kids[-1])
+            else:
+                stack.execute(d)
+                stack.undo()
+                for _ in range(rng.randint(1, 3)):
+                    stack.execute(C.Set(rng.choice(objs), 'toa', victim))
+            before = snap()
+            stack.execute(d)
+            stack.undo()
+            after = snap()
+        except Exception as e:
+            ctx.violate({'clause': 'undo', 'cmd': 'Delete', 'reused': mode}, f'a Delete object {mode}: {type(e).__name__}: {e}', {'reused_delete': k, 'mode': mode})
+            return
+        if after != before:
+            d_ = next(((a, b) for a, b in zip(before, after) if a != b), None)
+            ctx.violate({'clause': 'undo', 'cmd': 'Delete', 'reused': mode},
+                        f'undo: a Delete object {mode}: after execute and undo the model is not what it was before that execute: {d_[0]} became {d_[1]}',
+                        {'reused_delete': k, 'mode': mode})
+            return
+
+
 def run(ctx):
     common.use_repo()
     compound_interference_pass(ctx)
     editing_domain_pass(ctx)
+    reused_delete_pass(ctx)
     n = 600 if ctx.quick() else 12000
     nl = 14 if ctx.quick() else 22
     ctx.rule = (f'{n} words over {{execute(Set|Add|Remove|Move|Delete|Compound), undo, redo}} (<= {nl} letters, about 45% undo/redo) from a '
